@@ -1,8 +1,75 @@
-/- line-protocol engine `alloc` (stub: answers bad-op until the engine is built) -/
+/- line-protocol engine `alloc` (C09): the accounting model run on an event trace.
+
+  alloc shape                                   -> `recognised=<b> rollsBack=<b> uses=<n>/<monotone> mutations=<n>`
+  alloc trace <L|-> <xvalue>,<bigint>,<fenced>,<usize> <ev>…
+       ev: a<id>:<bytes>  Runtime::allocate of <bytes>          -> `ok <recorded>` | `viol`
+           e<id>:<bytes>  managed error value, message <bytes>    -> `ok` | `viol`
+           s<id>:<bytes>  managed ASCII string value              -> `ok` | `viol`
+           d<id>          drop                                    -> `ok` | `noop`
+           p<n>           can_allocate(n)                         -> `ok` | `viol` | `panic`
+       answer: `<outcome>,<size after>;…|<size before cleanup>|<underflows>`
+  The shape of `allocate` (does it roll back?) is the one generated from the sources.
+-/
+import XrayModel.Alloc
+import Generated.SizeLimitUses
+open XrayModel.Alloc
 namespace XrayDriver
 
+def allocParseEv (c : Consts) (t : String) : Option (Char × Ev) :=
+  match t.toList with
+  | [] => none
+  | k :: rest =>
+    let body := String.ofList rest
+    match k with
+    | 'd' => body.toNat?.map (fun i => ('d', Ev.drop i))
+    | 'p' => body.toNat?.map (fun n => ('p', Ev.preflight n))
+    | _ =>
+      match body.splitOn ":" with
+      | [i, b] =>
+        match i.toNat?, b.toNat? with
+        | some i, some b =>
+          if k == 'a' then some ('a', Ev.alloc i b)
+          else if k == 'e' then some ('e', Ev.alloc i b)
+          else if k == 's' then some ('s', Ev.alloc i (Val.size c (.string b 0)))
+          else none
+        | _, _ => none
+      | _ => none
+
+def allocStepShow (sh : AllocShape) (r : Run) (k : Char) (e : Ev) : Run × String :=
+  let r' := step sh r e
+  let out :=
+    match e with
+    | .alloc _ _ =>
+      if r'.viols > r.viols then "viol"
+      else if k == 'a' then
+        match r'.live.head? with
+        | some (_, rec) => s!"ok {rec}"
+        | none => "?"
+      else "ok"
+    | .drop id => if (r.live.lookup id).isSome then "ok" else "noop"
+    | .preflight _ =>
+      if r'.viols > r.viols then "viol" else if r'.overflows > r.overflows then "panic" else "ok"
+  (r', s!"{out},{r'.st.size}")
+
 def allocEngine (f : String) (args : List String) : String :=
+  let sh := Generated.SizeLimitUses.allocShape
   match f, args with
+  | "shape", [] =>
+    let us := Generated.SizeLimitUses.uses
+    s!"recognised={sh.recognised} rollsBack={sh.rollsBack} uses={us.length}/{(us.filter LimitUse.monotone).length} mutations={Generated.SizeLimitUses.mutations.length}"
+  | "trace", lim :: cs :: evs =>
+    let limit? : Option (Option Nat) := if lim == "-" then some none else lim.toNat?.map some
+    match limit?, (cs.splitOn ",").mapM String.toNat? with
+    | some limit, some [xv, bi, fs, us] =>
+      let c : Consts := { xvalue := xv, bigint := bi, fencedString := fs, usize := us }
+      match evs.mapM (allocParseEv c) with
+      | none => "bad-op"
+      | some pes =>
+        let (r, outs) := pes.foldl (fun (acc : Run × List String) (ke : Char × Ev) =>
+          let (r', o) := allocStepShow sh acc.1 ke.1 ke.2
+          (r', o :: acc.2)) (fresh limit, [])
+        String.intercalate ";" outs.reverse ++ s!"|{r.st.size}|{r.underflows}"
+    | _, _ => "bad-op"
   | _, _ => "bad-op"
 
 end XrayDriver
